@@ -53,8 +53,9 @@ static u64 pick_len(G &g, const Cfg &c) {
     if (x < 24) return unit * r.range(1, 40);
     if (x < 30) return 16 * c.k * r.range(1, 8) + r.range(-1, 1) * (i64) r.chance(1, 2);
     if (x < 90) return (u64) r.range(2, 4096);
-    if (x < 98 || !g.thorough) return (u64) r.range(4097, g.thorough ? 65536 : 20000);
-    return (u64) r.range(65537, 1 << 20);
+    if (x < 98) return (u64) r.range(4097, g.thorough ? 65536 : 20000);
+    if (!g.thorough && r.chance(3, 4)) return (u64) r.range(4097, 40000);
+    return (u64) r.range(65537, 1 << 20);   // rare in the quick tier (~0.5 % of objects), 2 % in thorough
 }
 
 static Json create_op(int slot, const Cfg &c, int expect = 1) {
@@ -79,7 +80,11 @@ static Json delivery(G &g, u64 mask, int n, bool shape_faults) {
     Rng &r = g.faults;
     if (shape_faults) {
         if (r.chance(1, 2)) r.shuffle(idx);
-        if (!idx.empty() && r.chance(1, 5)) { int d = (int) r.range(1, 3); for (int i = 0; i < d; i++) idx.insert(idx.begin() + r.below(idx.size() + 1), idx[r.below(idx.size())]); }
+        if (!idx.empty() && r.chance(1, 5)) {
+            // duplicated delivery; now and then a flood of duplicates (more entries than the stripe has fragments)
+            int d = r.chance(1, 8) ? (int) r.range(n, 2 * n + 3) : (int) r.range(1, 3);
+            for (int i = 0; i < d; i++) idx.insert(idx.begin() + r.below(idx.size() + 1), idx[r.below(idx.size())]);
+        }
     }
     Json dl = Json::arr();
     for (int d : idx) { Json e = Json::obj(); e.set("dev", d).set("al", shape_faults ? pick_al(r) : 16); dl.push(e); }
@@ -295,9 +300,9 @@ static Json header_damage(G &g, u64 flen, bool allow_semantic) {
     else if (x < 92) { fx.push(fx_flip((i64) (ref::OFF_PAD * 8 + r.below(72)))); }   // padding only: not covered by the CRC
     else if (allow_semantic) {
         // re-sealed semantic change that keeps the size fields sane
-        static const char *safe[] = {"idx", "beid", "bever", "mismatch", "chksum0", "origlen"};
-        const char *f = safe[r.below(6)];
-        i64 v = !strcmp(f, "origlen") ? (i64) r.below(4096) : (i64) r.below(300);
+        static const char *safe[] = {"idx", "beid", "bever", "mismatch", "chksum0", "origlen", "ct"};
+        const char *f = safe[r.below(7)];
+        i64 v = !strcmp(f, "origlen") ? (i64) r.below(4096) : !strcmp(f, "ct") ? (i64) r.below(6) : (i64) r.below(300);
         fx.push(fx_field(f, v, (int) r.range(1, 2)));
     } else fx.push(fx_flip((i64) r.below(640)));
     if (r.chance(1, 8)) fx.push(fx_flip((i64) r.below(640)));
@@ -453,7 +458,8 @@ static void gen_c12(G &g) {
         else if (x < 34) fx.push(fx_field("beid", (i64) r.below(256), seal));
         else if (x < 44) { u32 bv = 0x010000; if (rc.be == BE_IV || rc.be == BE_IC) bv = (2u << 16) | (13u << 8); i64 d = r.range(-1, 1); fx.push(fx_field("bever", (i64) bv + d + (r.chance(1, 4) ? 256 : 0), seal)); }
         else if (x < 54) { static const i64 d[] = {-1, 1, 256, -256, 65536}; fx.push(fx_field("libver", (i64) VER_CUR + d[r.below(5)], seal)); }
-        else if (x < 60) fx.push(fx_field("mismatch", (i64) r.below(2), seal));
+        else if (x < 58) fx.push(fx_field("mismatch", (i64) r.below(2), seal));
+        else if (x < 60) fx.push(fx_field("ct", (i64) r.below(5), seal));
         else if (x < 70) fx = payload_damage(g, 80 + 64);
         else if (x < 78) fx = header_damage(g, 0, true);
         else if (x < 82) fx.push(fx1("endian"));
@@ -461,7 +467,13 @@ static void gen_c12(G &g) {
         // else: pristine
         if (r.chance(1, 4)) {
             Json fr = Json::arr(); int cnt = (int) r.range(1, 5);
-            for (int q = 0; q < cnt; q++) { Json e = Json::obj(); e.set("obj", r.chance(3, 4) ? reader : (int) r.below(ninst)).set("dev", (i64) r.below(32)); if (q == 0) e.set("fx", fx); fr.push(e); }
+            for (int q = 0; q < cnt; q++) {
+                Json e = Json::obj(); e.set("obj", r.chance(3, 4) ? reader : (int) r.below(ninst)).set("dev", (i64) r.below(32));
+                if (q == 0) e.set("fx", fx);
+                else if (r.chance(1, 4)) { Json f2 = Json::arr(); static const char *fl[] = {"idx", "beid", "bever", "mismatch"}; const char *f = fl[r.below(4)];
+                    f2.push(fx_field(f, !strcmp(f, "idx") ? n + (i64) r.range(-1, 2) : !strcmp(f, "mismatch") ? (i64) r.below(2) : (i64) r.below(300), (int) r.below(3))); e.set("fx", f2); }
+                fr.push(e);
+            }
             if (r.chance(1, 2)) std::swap(fr.a[0], fr.a[fr.a.size() - 1]);
             Json j = mk("VSM"); j.set("slot", reader).set("fr", fr); g.ops.push(j);
         } else {
